@@ -520,6 +520,29 @@ func GenCase(r *driver.Rng, opt Options) (*desc.Case, *Meta) {
 		file.Messages = append(file.Messages, m)
 		leaves = append(leaves, info)
 	}
+	// a message declared in a dependency file with a Go package of its own (plain scalar fields, optionally a oneof group):
+	// its struct type, and the wrapper types of its oneof, are qualified with that package in the generated code
+	var depFiles []desc.File
+	if x.r.P(40) {
+		dm := desc.Message{Name: x.msgName(), Comment: x.comment(), Oneofs: []string{}, Fields: []desc.Field{}}
+		x.fieldNum = 0
+		plain := []string{"string", "int64", "uint32", "bool", "double", "bytes", "sint32"}
+		for k := 0; k < 2+x.r.Intn(3); k++ {
+			f := desc.Field{Name: x.fieldName(), Number: x.num(), Card: "single", Oneof: -1, Comment: x.comment(), Type: plain[x.r.Intn(len(plain))]}
+			if x.r.P(25) {
+				f.Card = "repeated"
+			}
+			dm.Fields = append(dm.Fields, f)
+		}
+		if x.r.P(50) {
+			dm.Oneofs = append(dm.Oneofs, x.fieldName())
+			for k := 0; k < 2; k++ {
+				dm.Fields = append(dm.Fields, desc.Field{Name: x.fieldName(), Number: x.num(), Card: "single", Oneof: 0, Type: plain[x.r.Intn(4)]})
+			}
+		}
+		depFiles = append(depFiles, desc.File{Name: "dep/dep.proto", Package: "dep", GoPackage: "dpkg", Messages: []desc.Message{dm}, Enums: []desc.Enum{}})
+		leaves = append(leaves, msgInfo{name: dm.Name, hasOneof: len(dm.Oneofs) > 0})
+	}
 	for i := 0; i < nEmb; i++ {
 		name := x.msgName()
 		m, info := x.genMessage(name, x.nonEmptyOnly(leaves), nil, 0)
@@ -549,7 +572,10 @@ func GenCase(r *driver.Rng, opt Options) (*desc.Case, *Meta) {
 	}
 	// declaration order of messages is arbitrary in proto files
 	x.shuffleMessages(&file)
-	c := &desc.Case{Request: desc.Request{File: file, Deps: []desc.File{}}, YamlState: "ok", Cli: []desc.KV{}}
+	if depFiles == nil {
+		depFiles = []desc.File{}
+	}
+	c := &desc.Case{Request: desc.Request{File: file, Deps: depFiles}, YamlState: "ok", Cli: []desc.KV{}}
 	cfg := x.cfg
 	for _, m := range roots {
 		cfg.Types = append(cfg.Types, m.name)
